@@ -76,6 +76,34 @@ package bus
 //@     invariant !s.RWMutex.lockw && s.RWMutex.lockr == 1
 //@     invariant s.objects != nil && s.objects == at_lock(s.objects) && (forall k uint32 {has(s.objects, k)} :: has(s.objects, k) ==> s.objects[k] != nil)
 
+// Termination plumbing: the terminator handed to an object removes exactly that object id from its
+// service; objectImpl.Terminate refuses a foreign id without terminating anything and otherwise
+// runs the terminator it was activated with exactly once.
+//@ ghostfield termcalls int counter
+//@ interface (s Service) Remove(objectID uint32) (err error)
+//@   trusted
+//@   modifies everything
+//@ func objectTerminator$1()
+//@   tags C16
+//@   requires service != nil
+//@   modifies everything
+//@   call Remove#1: assert[C16] arg0 == objectID
+//@ fieldfunc (o *objectImpl) terminate()
+//@   trusted
+//@   modifies everything, o.termcalls
+//@   ensures o.termcalls == old(o.termcalls) + 1
+//@ func (o *objectImpl) Terminate(objectID uint32) (err error)
+//@   tags C16
+//@   requires o.terminate != nil
+//@   modifies everything, o.termcalls
+//@   ensures[C16] err == nil ==> o.termcalls == old(o.termcalls) + 1
+//@   ensures[C16] err != nil ==> o.termcalls == old(o.termcalls)
+//@   ensures[C16] err != nil <==> (objectID != 0 && old(o.objectID) < 2147483648 && objectID != old(o.objectID))
+//@ func (o *objectImpl) Activate(activation Activation, signal ObjectSignalHelper) (err error)
+//@   tags C16
+//@   modifies o.signal, o.objectID, o.terminate
+//@   ensures[C16] err == nil && o.objectID == activation.ObjectID && o.terminate == activation.Terminate
+
 // Add: the new identifier is free at the moment it is reserved (for a service whose first object
 // has id 1, which is how every service is created), and a failed activation leaves nothing behind.
 //@ func (s *serviceImpl) Add(obj Actor) (index uint32, err error)
